@@ -16,8 +16,8 @@ EXTENDS Tables
 
 CONSTANTS L, WSBYTES     \* maximal input length; extra bytes added to every alphabet (whitespace, an unknown byte)
 
-VARIABLES g, inp, opt, stack, sstack, vals, nodes, it, endIt, cur, line, col, mode, ph, status, msgs, red, ev
-vars == <<g, inp, opt, stack, sstack, vals, nodes, it, endIt, cur, line, col, mode, ph, status, msgs, red, ev>>
+VARIABLES g, inp, opt, stack, sstack, vals, nodes, it, endIt, cur, line, col, mode, ph, status, msgs, red, mxd, ev
+vars == <<g, inp, opt, stack, sstack, vals, nodes, it, endIt, cur, line, col, mode, ph, status, msgs, red, mxd, ev>>
 
 D == INSTANCE Driver WITH RCell <- SpecCell, SCell <- SpecCell, LexAt <- LexDispatch, GR <- GRof
 
@@ -101,5 +101,6 @@ Given == IF "VERIF_GIVEN" \in DOMAIN IOEnv THEN ndJsonDeserialize(IOEnv.VERIF_GI
 InitGiven == \E i \in 1..Len(Given) : D!Init0(Given[i].g, Given[i].bytes, [v |-> TRUE, ws |-> Given[i].ws, nl |-> Given[i].nl])
 SpecGiven == InitGiven /\ [][Next]_vars
 VerdictReported == ~Done \/ PrintT(<<"VERDICT", ToJson([g |-> g, bytes |-> inp, ws |-> opt.ws, nl |-> opt.nl, status |-> status, msgs |-> msgs,
-                                                         root |-> IF status = "acc" THEN vals[1] ELSE -1, nnodes |-> Len(nodes)])>>)
+                                                         root |-> IF status = "acc" THEN vals[1] ELSE -1, maxstack |-> mxd,
+                                                         nodes |-> [i \in 1..Len(nodes) |-> [k |-> nodes[i].k, sym |-> nodes[i].sym, ch |-> nodes[i].ch]]])>>)
 =============================================================================
